@@ -171,4 +171,40 @@ theorem visitItems_frame (st : RW) : ∀ (its : List Item) (j : Nat) (it : Item)
     have hs : (visitItem st x).1.search = st.search := visitItem_search st x
     exact visitItems_frame (visitItem st x).1 rest j it h (by rw [hs]; exact ht)
 
+/-! ### several replacements in a row (sync_properties applies one pair after the other) -/
+
+/-- one `RewriteAtQuery(search, repl).visit` over a statement list, with a fresh transformer -/
+def rewriteOnce (pr : List Atom × Node) (items : List Item) : List Item :=
+  (visitItems { search := pr.1, repl := pr.2 } items).2
+
+def rewriteMany (prs : List (List Atom × Node)) (items : List Item) : List Item :=
+  prs.foldl (fun acc pr => rewriteOnce pr acc) items
+
+/-- **C14 frame**: after ANY number of pairs, a statement that none of the searches touches is still at
+    its index, unchanged (so everything that was not addressed has an identical syntax tree) -/
+theorem rewriteMany_frame : ∀ (prs : List (List Atom × Node)) (items : List Item) (j : Nat) (it : Item),
+    items[j]? = some it → (∀ pr ∈ prs, touchItem pr.1 it = false) → (rewriteMany prs items)[j]? = some it
+  | [], _, _, _, h, _ => h
+  | pr :: prs, items, j, it, h, ht => by
+    unfold rewriteMany
+    simp only [List.foldl_cons]
+    have h1 : (rewriteOnce pr items)[j]? = some it := by
+      unfold rewriteOnce
+      exact visitItems_frame { search := pr.1, repl := pr.2 } items j it h (ht pr (by simp))
+    exact rewriteMany_frame prs (rewriteOnce pr items) j it h1 (fun q hq => ht q (by simp [hq]))
+
+theorem rewriteMany_length (prs : List (List Atom × Node)) : ∀ (items : List Item),
+    (rewriteMany prs items).length = items.length := by
+  induction prs with
+  | nil => intro items; rfl
+  | cons pr prs ih =>
+    intro items
+    unfold rewriteMany
+    simp only [List.foldl_cons]
+    have := ih (rewriteOnce pr items)
+    unfold rewriteMany at this
+    rw [this]
+    unfold rewriteOnce
+    exact visitItems_length _ items
+
 end PyAst
